@@ -385,7 +385,37 @@ TEXT_ADD = {
     "C16": " Including ~x, +x, builtin sum(), Ineq(expr, any operand, op) for all five operators and both operand orders "
            "(ineq_normalisation, cmp_dispatch), and the exception class of every operator the classes do not define (unsupported_operators).",
 }
+TEXT_ADD["C01"] += (" The constructor is verified FROM ITS DOCUMENTS (FV/Model/DieNet.lean): source kinds (text, tree, open stream), the <w>x<h> "
+                   "shorthand and parse_yaml_die are modelled, the attached netlist is read by the C05 reader model, and the reported fixed regions "
+                   "are proved to be exactly the rectangles of its fixed modules in document order (construct_fixed_of_netlist); construct_sound / "
+                   "construct_complete / construct_rejects_* restate the headline theorems on documents; object histories (netlist objects modified "
+                   "in place or via assign_rectangles before the die is built) are part of the correspondence run.")
+TEXT_ADD["C11"] += (" Die refinement is proved for whole SESSIONS of method calls on the constructed object (FV/Model/DieObj.lean: session_invariant — "
+                   "exact tiling kept, blockages / fixed regions / outline untouched, pieces inside their former region with its tag; IndexError exactly on "
+                   "dies without refinable region), with no fuel hypothesis at Q (splitQ_never_out_of_fuel), composed with C01 (constructed_session).")
+TEXT_ADD["C09"] = (" The system judged is now equations AND the declared variable bounds (FV/Model/LegalDecl.lean, compared with the real GKVariables — "
+                   "LOWER / UPPER / VALUE — on every run): sound with no positivity hypothesis (system_sound_declared), complete for floorplans with sides "
+                   ">= 0.1 (GEKKO's lb; declared_excludes_small_legal shows the restriction is needed); netlist_to_utils is proved a faithful re-encoding "
+                   "(utils_rects_exactly_once, utils_tables_original); step caps, enforce flags and disabled-rectangle equations are modelled and tied; a few "
+                   "REAL solver runs per check (offline APOPT, forked children) are judged by the exact Legal oracle.")
+TEXT_ADD["C19"] = (" Including the `fixed` mark of allocation cells (format repaired, /repo df9eb88); documents are accepted back in ANY tolerance state "
+                   "(alloc_roundtrip_any_state, die_roundtrip_any_state) and in a fresh forked interpreter on every run; the re-read object answers refine / "
+                   "must_be_refined like the written one (reread_answers_alike); netgen's command line and below-guard sizes (netgen_main_*), and the FloorSet "
+                   "converter from the raw arrays (asserts, block kinds, alpha: floorset_raw_accepted, floorset_terminals_in_die) are modelled and tied.")
+TEXT_ADD["C20"] = (" Every interleaved history of ANY NUMBER of SAT managers on the one shared store leaves each manager's encoding equal to that of its own "
+                   "constraints alone (FV/Model/SatProc.lean: sat_process_exact, encoding_multi_manager_history_indep) with the accept/refuse verdict a function "
+                   "of the constraint (sat_verdict_history_indep); the die verdict and decomposition are proved for every state a history of designs can leave "
+                   "(die_verdict_after_history, die_decomposition_after_histories). 16 operation kinds run fresh vs after-history (netgen, spectral, force, "
+                   "one-pass glbfloor, FloorSet manager, rect.solve, legaliser rebuild, interleaved SAT managers added), and a STATIC INVENTORY of process-wide "
+                   "state in the source (ast scan of 36 files: module-level mutables, global rebinding, class-level mutables, mutable defaults, caches, writes "
+                   "into inventoried containers) is compared with a committed list on every run — a new entry is a broken correspondence with file:line as replay.")
 NOTE_ADD = {
+    "C09": " Observed and modelled but outside the property's named equation groups (never an alarm; counted in evidence): lb = 0.1 excludes legal "
+           "floorplans with a side < 0.1, the `radius` step caps exclude floorplans far from the input, disabled rectangles contradict the lower bound. "
+           "One end-to-end defect repaired first (/repo 195a540: branches of movable hard modules reset after each solve).",
+    "C19": " C15 decomposition, sqrt and numpy summation are inputs; text layer tested (proved for the netlist writer's subset in C04).",
+    "C20": " The inventory is syntactic (no aliases, no third-party internals).",
+    "C01": " Two more repairs committed first (ground-region ratio underflow 400bc92, netlist installs only a finite tolerance 750ac5a).",
     "C02": " Open finding C02-huge-die-rounding-overlap (dies >= ~5e6 units with non-dyadic coordinates: refinement raises on valid allocations; "
            "same root as the C20 sqrt area tolerance).",
     "C10": " Solver hypothesis now SolverMeetsPostedVars (+ KeysDistinct). A module entirely on blockages makes glbfloor raise KeyError before "
@@ -398,6 +428,8 @@ NOTE_ADD = {
 TECH_ADD = {p: TIE_TECH for p in ("C18", "C17", "C06", "C02", "C12", "C11", "C03", "C01")}
 TECH_ADD["C04"] = " + byte-level model of the emitted YAML text (emit/parse round trip proved)"
 TECH_ADD["C10"] = " + node-for-node correspondence of the complete posted GEKKO system"
+TECH_ADD["C20"] = " + static inventory of process-wide state in the source"
+TECH_ADD["C09"] = " + declared-variable correspondence + live solver runs judged by an exact oracle"
 for _p, _t in TEXT_ADD.items():
     CHECKS[_p]["text"] += _t
 for _p, _t in NOTE_ADD.items():
